@@ -340,8 +340,10 @@ def _codes(names):
 
 
 def targeted():
-    """(name, cfg, steps, expectation) - the probed and suspected crashes of DESIGN section 6 and the ones found by
-    this check, as explicit minimal (config, history) pairs"""
+    """(name, cfg, steps) - the probed and suspected crashes of DESIGN section 6 and the ones found by this check, as
+    explicit minimal (config, history) pairs.  The repaired ones (known_findings.json "fixed": dynrec-*, chv2-use-defsrc,
+    chv2-alias-trans, 13-held-layers, multi-rpt-any, tde-empty) stay as regression reproducers: they must now be
+    processed to completion or be rejected by the parser; a crash is a violation again."""
     A, B, C, D = _codes(["a", "b", "c", "d"])
     T = []
     T.append(("dynrec-twice", "(defsrc a)\n(deflayer l0 (multi (dynamic-macro-record 1) (dynamic-macro-record 2)))\n",
@@ -598,8 +600,9 @@ def run(tier, seed):
     from props import c02_model
     cap = c02_model.capacity_submodel(tier, seed, wd, acc, run_all, mkjob, notes)
     con = c02_model.contracts(tier, seed, wd, acc, run_all, mkjob, notes)
-    res.states = cap.get("states", 0) + con.get("states", 0)
-    res.transitions = cap.get("generated", 0) + con.get("generated", 0)
+    conf = c02_model.repaired_conformance(tier, wd, notes)
+    res.states = cap.get("states", 0) + con.get("states", 0) + (conf.get("states") or 0)
+    res.transitions = cap.get("generated", 0) + con.get("generated", 0) + (conf.get("generated") or 0)
     # ---- verdicts
     crash_report = []
     for (sig, inclass), c in sorted(acc.crashes.items()):
@@ -651,6 +654,7 @@ def run(tier, seed):
         "list_actions_excluded": cfggen.EXCLUDED,
         "capacity_submodel": cap,
         "contract_table": con,
+        "repeat_arm_conformance": conf,
         "crash_signatures": crash_report,
         "samples": ([{"crash": c["signature"], "cfg": c["cfg"][:600], "history": c["history"][:20]} for c in crash_report[:4]] +
                     [{"random_config": True, "note": "see generator stats"}])[:8],
